@@ -290,7 +290,6 @@ func CondStrings(b *ssa.BasicBlock) []string {
 	return out
 }
 
-
 // VariadicElems: the elements of a variadic argument pack built at the call site
 // (slice of a fresh array with one store per index), in index order.
 func VariadicElems(v ssa.Value) ([]ssa.Value, bool) {
